@@ -55,7 +55,9 @@ RULE = ("Every case is executed by every child process of the pool (hash seeds 0
         "condition templates over 6 dynamic profiles (plain names, or names equal up to case / prefixes of each other / "
         "differing only in '-' and '_' / digits against letters, several of them defining one rule on one gene), often sharing cutoff/neighbourhood so that protoclusters of "
         "different products get equal coordinates, superiors, extenders, existing subregions; areas: 1-6 "
-        "protoclusters built on runs of genes with copied coordinates, repeated products, shared defining genes, "
+        "protoclusters built on runs of genes with copied coordinates, repeated products, shared defining genes, near "
+        "ties (same outer location and product/tool/core start but another core end, same core but another tool, same "
+        "core start but another product), a per-case ballast 0-7 added to every child's allocations, "
         "origin-crossing areas, subregions with equal coordinates. Non-trivial: refine/hmmer/filter - two hits tie "
         "on start or (normalised) score; detect/areas - two protoclusters or candidates with equal coordinates, a "
         "region with several products, or a gene with several defining domains for one rule. distinct = sha1 of "
@@ -576,8 +578,16 @@ def _span(loc: dict) -> tuple:
 def _areas_facts(spec: dict) -> dict:
     protos = spec["protoclusters"]
     equal = [[a["product"], b["product"]] for a, b in _pairs(protos) if _span(a["loc"]) == _span(b["loc"])]
+    same_loc = [(a, b) for a, b in _pairs(protos) if a["loc"]["parts"] == b["loc"]["parts"]]
     return {"equal_coordinate_protoclusters": equal[:6],
-            "equal_products": any(a["product"] == b["product"] for a, b in _pairs(protos))}
+            "equal_products": any(a["product"] == b["product"] for a, b in _pairs(protos)),
+            "near_tie_core_end": any(a["product"] == b["product"] and a["tool"] == b["tool"]
+                                     and a["core"]["parts"][0][0] == b["core"]["parts"][0][0]
+                                     and a["core"]["parts"] != b["core"]["parts"] for a, b in same_loc),
+            "near_tie_tool": any(a["product"] == b["product"] and a["tool"] != b["tool"]
+                                 and a["core"]["parts"] == b["core"]["parts"] for a, b in same_loc),
+            "near_tie_product": any(a["product"] != b["product"] and a["core"]["parts"][0][0] == b["core"]["parts"][0][0]
+                                    and a["core"]["parts"] != b["core"]["parts"] for a, b in same_loc)}
 
 
 def check_areas(spec: dict) -> dict:
@@ -589,6 +599,7 @@ def check_areas(spec: dict) -> dict:
         classes.append("spec_equal_products")
     if any(len(p["loc"]["parts"]) > 1 for p in spec["protoclusters"]):
         classes.append("spec_origin_crossing")
+    classes.extend(name for name in ("near_tie_core_end", "near_tie_tool", "near_tie_product") if facts[name])
     tied = bool(facts["equal_coordinate_protoclusters"] or facts["equal_products"])
     return _finish("areas", spec, facts, classes, lambda found: tied or bool(NONTRIVIAL_AREA_CLASSES & set(found)))
 
@@ -609,8 +620,29 @@ def _sig(func):
     return func
 
 
-# Every finding of this check has been repaired in /repo (see notes/C17.md and known_findings.json); their witnesses are
-# ordinary regressions in replays/C17/fixed-*.json and no signature is left: any disagreement is a plain violation.
+# Every finding of rounds 1 and 2 has been repaired in /repo (see notes/C17.md and known_findings.json); their witnesses
+# are ordinary regressions in replays/C17/fixed-*.json and their signatures are gone.  One finding of round 3 is open:
+
+_TOOL_TIE_JSON = re.compile(r"^records\[\]\.areas\[\]\.(protoclusters\.\d+\.tool|candidates\[\]\.protoclusters(\[\])?)$")
+
+
+@_sig
+def _region_unique_protocluster_tool_tie(sub, spec, clause, detail) -> bool:
+    """ Region.get_unique_protoclusters sorts a set with the key (start, -length, product, core): two protoclusters
+        with the same product, location and core that come from different tools still tie.  The spec holds such a
+        pair AND the same areas are formed AND only the order of a region's protoclusters differs (in the results
+        JSON: the 'tool' of areas[].protoclusters.N and the index lists that refer to that numbering) """
+    if sub != "areas" or not detail.get("near_tie_tool"):
+        return False
+    if {"areas_sets", "candidate_member_repeats"} & set(detail.get("upstream") or []):
+        return False
+    where, kind = detail.get("where", ""), detail.get("kind")
+    if clause == "areas_differs":
+        return kind == "list_order" and where in ("regions[].unique_protoclusters",
+                                                  "regions[].unique_protocluster_numbers")
+    if clause == "results_json_differs":
+        return bool(_TOOL_TIE_JSON.match(where)) and kind in ("value", "list_order")
+    return False
 
 
 # =========================================================================== generators
@@ -841,8 +873,8 @@ def areas_specs(draw) -> dict:
     for _ in range(draw(st.sampled_from([1, 2, 2, 3, 3, 4, 5, 6]))):
         product = draw(st.sampled_from(PRODUCTS))
         tool = draw(st.sampled_from(["rule-based-clusters", "rule-based-clusters", "other-tool"]))
-        mode = draw(st.sampled_from(["fresh", "fresh", "copy", "copy", "copy_loc", "copy_core", "wrap"])) if protos \
-            else draw(st.sampled_from(["fresh", "fresh", "fresh", "wrap"]))
+        mode = draw(st.sampled_from(["fresh", "fresh", "copy", "copy", "copy_loc", "copy_core", "wrap", "near_tie",
+                                     "near_tie"])) if protos else draw(st.sampled_from(["fresh", "fresh", "fresh", "wrap"]))
         if mode == "wrap" and not (circular and len(genes) >= 2):
             mode = "fresh"
         neighbourhood = draw(st.sampled_from([0, 30, 100, 400]))
@@ -860,6 +892,33 @@ def areas_specs(draw) -> dict:
                         core = {"parts": [list(pick["loc"]["parts"][0])], "strand": 1}
                 else:                        # same core, another neighbourhood
                     loc = {"parts": [[max(0, start - neighbourhood), min(length, end + neighbourhood)]], "strand": 1}
+        elif mode == "near_tie":
+            # a protocluster that all but one component of a tie-break key cannot tell from an earlier one:
+            # same outer location, and  (a) same product, tool and core start, another core end
+            #                           (b) same product and core, another tool
+            #                           (c) same core start, another core end, another product
+            ref = draw(st.sampled_from(protos))
+            kind = draw(st.sampled_from(["core_end", "core_end", "tool", "product_core_end"]))
+            core = {"parts": [list(p) for p in ref["core"]["parts"]], "strand": 1}
+            loc = {"parts": [list(p) for p in ref["loc"]["parts"]], "strand": 1}
+            neighbourhood = ref["neighbourhood"]
+            if kind != "product_core_end":
+                product = ref["product"]
+            tool = ref["tool"]
+            if kind == "tool":
+                tool = "other-tool" if ref["tool"] != "other-tool" else "rule-based-clusters"
+            else:
+                # another end for the last part of the core: the end of a gene, or three bases less
+                first_of_last, old_end = core["parts"][-1]
+                limit = loc["parts"][-1][1]
+                ends = sorted({g["loc"]["parts"][0][1] for g in genes if len(g["loc"]["parts"]) == 1
+                               and first_of_last < g["loc"]["parts"][0][1] <= limit} - {old_end})
+                if ends:
+                    core["parts"][-1][1] = draw(st.sampled_from(ends))
+                elif old_end - 3 > first_of_last:
+                    core["parts"][-1][1] = old_end - 3
+                else:
+                    tool = "other-tool" if ref["tool"] != "other-tool" else "rule-based-clusters"
         elif mode == "wrap":
             # the last k genes and the first m genes, over the origin
             k = draw(st.integers(1, max(1, len(genes) // 2)))
@@ -881,13 +940,18 @@ def areas_specs(draw) -> dict:
             end = max(g["loc"]["parts"][0][1] for g in genes[first:last + 1])
             core = {"parts": [[start, end]], "strand": 1}
             loc = {"parts": [[max(0, start - neighbourhood), min(length, end + neighbourhood)]], "strand": 1}
-        # no exact twins: two protoclusters of one product never share a location (one rule gives disjoint cores)
-        taken = {p["product"] for p in protos if p["loc"]["parts"] == loc["parts"]}
-        if product in taken:
-            free = [name for name in PRODUCTS if name not in taken]
-            if not free:
-                continue
-            product = free[0]
+        # no exact twins (same product, tool, core and location: nothing in any output tells them apart); outside the
+        # near-tie family two protoclusters of one product do not share a location either
+        if mode != "near_tie":
+            taken = {p["product"] for p in protos if p["loc"]["parts"] == loc["parts"]}
+            if product in taken:
+                free = [name for name in PRODUCTS if name not in taken]
+                if not free:
+                    continue
+                product = free[0]
+        if any(p["product"] == product and p["tool"] == tool and p["core"]["parts"] == core["parts"]
+               and p["loc"]["parts"] == loc["parts"] for p in protos):
+            continue
         protos.append({"core": core, "loc": loc, "product": product, "category": f"cat_{product}", "tool": tool,
                        "cutoff": draw(st.sampled_from([10, 50, 200])), "neighbourhood": neighbourhood})
     del first_start
@@ -918,7 +982,8 @@ def areas_specs(draw) -> dict:
                 end = max(g["loc"]["parts"][0][1] for g in genes[first:last + 1])
             subregions.append({"loc": {"parts": [[start, end]], "strand": 1},
                                "tool": draw(st.sampled_from(["t1", "t2"])), "label": f"s{index % 2}"})
-    return {"L": length, "circular": circular, "genes": genes, "protoclusters": protos, "subregions": subregions}
+    return {"L": length, "circular": circular, "genes": genes, "protoclusters": protos, "subregions": subregions,
+            "ballast": draw(st.integers(0, 7))}
 
 
 # =========================================================================== driver
